@@ -18,9 +18,9 @@ EXTENDS Trace_Wallet
 
 CONSTANT Maturity
 
-VARIABLE cs      \* the coin state (a record, see Coins.tla)
+VARIABLE coinSt      \* the coin state (a record, see Coins.tla)
 C == INSTANCE Coins
-ctvars == << tvars, cs >>
+ctvars == << tvars, coinSt >>
 
 LoggedCoinRow(r) == [c |-> r.c, v |-> r.v, acct |-> r.acct, t |-> r.t, mined |-> r.mined, minobs |-> r.minobs, exp |-> r.exp,
                      sp |-> { << s[1], s[2], s[3], s[4] >> : s \in SeqToSet(r.sp) }]
@@ -33,72 +33,76 @@ LoggedCoinRow(r) == [c |-> r.c, v |-> r.v, acct |-> r.acct, t |-> r.t, mined |->
 \* COIN_KNOWN_SPENDERS: "off" (law not evaluated) | "excuse" | "strict".
 KnownSpendersLaw ==
     (IOEnv.COIN_KNOWN_SPENDERS # "off") =>
-       \A k \in cs'.smap :
-          (/\ k[2] \in DOMAIN cs'.coins /\ cs'.ttx[k[1]].mined # -1 /\ cs'.ttx[k[1]].mined < tip' + 1
-           /\ C!Counted(cs', k[2], tip' + 1))
+       \A k \in coinSt'.smap :
+          (/\ k[2] \in DOMAIN coinSt'.coins /\ coinSt'.ttx[k[1]].mined # -1 /\ coinSt'.ttx[k[1]].mined < tip' + 1
+           /\ C!Counted(coinSt', k[2], tip' + 1))
           => /\ IOEnv.COIN_KNOWN_SPENDERS = "excuse"
-             /\ Cardinality(C!Cands(cs', k[2])) >= 2
+             /\ Cardinality(C!Cands(coinSt', k[2])) >= 2
              /\ PrintT(<< "KNOWN", "C01-conflicting-spenders-one-linked", k[2], k[1] >>)
 
 \* CoinLedgerLaw (balances) and the row-level equality, against the primed state
 CoinsAgree(cp) ==
     \/ ~cp.chk
     \/ IOEnv.CHECK_COINS # "1"
-    \/ /\ { LoggedCoinRow(cp.rows[i]) : i \in DOMAIN cp.rows } = { C!RowOf(cs', c) : c \in DOMAIN cs'.coins }
-       /\ Len(cp.rows) = Cardinality(DOMAIN cs'.coins)
+    \/ /\ { LoggedCoinRow(cp.rows[i]) : i \in DOMAIN cp.rows } = { C!RowOf(coinSt', c) : c \in DOMAIN coinSt'.coins }
+       /\ Len(cp.rows) = Cardinality(DOMAIN coinSt'.coins)
        /\ KnownSpendersLaw
        /\ cp.balp =>                          \* no summary, no claim (as for the shielded pools)
              \A a \in 1..2 :
-                /\ << cp.bal[a][1], cp.bal[a][2] >> \in { C!LedgerT(cs', a, tip' + 1), C!LedgerTGrouped(cs', a, tip' + 1) }
+                /\ << cp.bal[a][1], cp.bal[a][2] >> \in { C!LedgerT(coinSt', a, tip' + 1), C!LedgerTGrouped(coinSt', a, tip' + 1) }
                 /\ cp.bal[a][3] = 0 /\ cp.bal[a][4] = 0           \* nothing the driver delivers is a coinbase output
 
 CoinsOK(cp) == IF CoinsAgree(cp) THEN TRUE
                ELSE /\ IOEnv.EXPLAIN = "1"
-                    /\ PrintT(<< "EXPLAINC", l, [tip |-> tip', rows |-> { C!RowOf(cs', c) : c \in DOMAIN cs'.coins }, smap |-> cs'.smap,
-                                                 b1 |-> << C!LedgerT(cs', 1, tip' + 1), C!LedgerTGrouped(cs', 1, tip' + 1) >>,
-                                                 b2 |-> << C!LedgerT(cs', 2, tip' + 1), C!LedgerTGrouped(cs', 2, tip' + 1) >>] >>)
+                    /\ PrintT(<< "EXPLAINC", l, [tip |-> tip', rows |-> { C!RowOf(coinSt', c) : c \in DOMAIN coinSt'.coins }, smap |-> coinSt'.smap,
+                                                 b1 |-> << C!LedgerT(coinSt', 1, tip' + 1), C!LedgerTGrouped(coinSt', 1, tip' + 1) >>,
+                                                 b2 |-> << C!LedgerT(coinSt', 2, tip' + 1), C!LedgerTGrouped(coinSt', 2, tip' + 1) >>] >>)
 
 WalletSame == UNCHANGED << wvars, cvars, locks, sugg >>
 
-TCoinChk == /\ IsEvent("coinchk") /\ WalletSame /\ UNCHANGED cs
+TCoinChk == /\ IsEvent("coinchk") /\ WalletSame /\ UNCHANGED coinSt
             /\ CoinsOK(Rec[l].coins)
 
 \* both coin operations need a known chain tip (ChainHeightUnknown otherwise) and change nothing when refused
 TUtxo == /\ IsEvent("utxo") /\ WalletSame
          /\ LET r == Rec[l]
             IN  \/ /\ r.res = "ok" /\ tip # -1
-                   /\ cs' \in C!ReportUtxo(cs, tip, r.c, r.t, r.v, r.acct, r.h)
-                \/ /\ r.res = "err" /\ (tip = -1 \/ C!Remines(cs, r.t, r.h))
-                   /\ cs' = cs
+                   /\ coinSt' \in C!ReportUtxo(coinSt, tip, r.c, r.t, r.v, r.acct, r.h)
+                \/ /\ r.res = "err" /\ (tip = -1 \/ C!Remines(coinSt, r.t, r.h))
+                   /\ coinSt' = coinSt
          /\ PostOK(Rec[l].post) /\ CoinsOK(Rec[l].coins)
 
 TFullTx == /\ IsEvent("fulltx") /\ WalletSame
            /\ LET r == Rec[l]
                   outs == { [c |-> o[1], v |-> o[2], acct |-> o[3]] : o \in SeqToSet(r.outs) }
               IN  \/ /\ r.res = "ok" /\ tip # -1
-                     /\ cs' \in C!StoreFullTx(cs, tip, r.t, SeqToSet(r.ins), outs, r.h, r.e)
-                  \/ /\ r.res = "err" /\ (tip = -1 \/ C!Remines(cs, r.t, r.h))
-                     /\ cs' = cs
+                     /\ coinSt' \in C!StoreFullTx(coinSt, tip, r.t, SeqToSet(r.ins), outs, r.h, r.e)
+                  \/ /\ r.res = "err" /\ (tip = -1 \/ C!Remines(coinSt, r.t, r.h))
+                     /\ coinSt' = coinSt
            /\ PostOK(Rec[l].post) /\ CoinsOK(Rec[l].coins)
 
 TTxStatus == /\ IsEvent("txstatus") /\ WalletSame
              /\ LET r == Rec[l]
                 IN  \/ /\ r.res = "ok" /\ tip # -1
-                       /\ cs' = C!SetMined(cs, r.t, r.h)
-                    \/ /\ r.res = "err" /\ (tip = -1 \/ C!Remines(cs, r.t, r.h))
-                       /\ cs' = cs
+                       /\ coinSt' = C!SetMined(coinSt, r.t, r.h)
+                    \/ /\ r.res = "err" /\ (tip = -1 \/ C!Remines(coinSt, r.t, r.h))
+                       /\ coinSt' = coinSt
              /\ PostOK(Rec[l].post) /\ CoinsOK(Rec[l].coins)
 
 \* every operation of Trace_Wallet, with what it does to the coins: nothing - except a rewind, which un-mines
 \* every transaction above the height the wallet settled on (and a reset, which is a new wallet).
-\* (cs' is fixed first: with every primed variable determined TLC evaluates the projections as plain predicates.)
+\* (coinSt' is fixed first: with every primed variable determined TLC evaluates the projections as plain predicates.)
 CoinTraceNext ==
-    \/ (cs' = C!Empty /\ TReset)
-    \/ (UNCHANGED cs /\ (TBlock \/ TTip \/ TScan \/ TFresh \/ TPropose \/ TLock \/ TUnlock \/ TClear \/ TSuggest \/ TSyncDone \/ TRoots))
-    \/ (l <= Len(Rec) /\ Rec[l].a = "trunc" /\ cs' = (IF Rec[l].res = "ok" THEN C!Truncate(cs, Rec[l].to) ELSE cs) /\ TTrunc)
+    \/ (coinSt' = C!Empty /\ TReset)
+    \/ (UNCHANGED coinSt /\ (TBlock \/ TTip \/ TScan \/ TFresh \/ TPropose \/ TLock \/ TUnlock \/ TClear \/ TSuggest \/ TSyncDone \/ TRoots))
+    \/ (/\ l <= Len(Rec) /\ Rec[l].a = "trunc"
+        /\ IF Rec[l].res # "ok" THEN coinSt' = coinSt
+           ELSE IF ~Rec[l].cs THEN coinSt' = C!Truncate(coinSt, Rec[l].to)                 \* truncate_to_height settled on `to`
+           ELSE \E eff \in 0..Rec[l].req : coinSt' = C!Truncate(coinSt, eff)               \* truncate_to_chain_state: an unlogged height
+        /\ TTrunc)
     \/ TUtxo \/ TFullTx \/ TTxStatus \/ TCoinChk
 
-CoinTraceInit == TraceInit /\ cs = C!Empty
+CoinTraceInit == TraceInit /\ coinSt = C!Empty
 CoinTraceSpec == CoinTraceInit /\ [][CoinTraceNext]_ctvars
-CoinTypeOK == C!TypeOK(cs)
+CoinTypeOK == C!TypeOK(coinSt)
 =====================================================================================
